@@ -12,11 +12,174 @@ import (
 	"context"
 	"fmt"
 	"sort"
+	"strings"
 	"sync"
 	"testing"
 	"testing/synctest"
 	"time"
 )
+
+// c17Spellings: the ways the library's configuration accepts for ONE directory URL u (which is
+// spelled in full, "https://host/path"): as it is, and with the optional scheme left out ("https
+// is assumed", acmeclient.go secureCAURL). Written down here, not computed by the library. Other
+// variations (case of the host, a trailing slash, ":443") are different directory URLs to the
+// library and to the account storage and are deliberately not in the table.
+func c17Spellings(u string) []string {
+	return []string{u, strings.TrimPrefix(u, "https://")}
+}
+
+// c17WindowExceeded: do lim+1 of the (sorted) instants lie inside one window?
+func c17WindowExceeded(at []int64, lim int, win time.Duration) bool {
+	for i := 0; i+lim < len(at); i++ {
+		if at[i+lim]-at[i] < int64(win) {
+			return true
+		}
+	}
+	return false
+}
+
+// c17SeveralIssuers: "per CA and account" is a statement about the CA and the account, not about
+// the issuer value or the way its configuration spells the CA. Several ACMEIssuers (each in its own
+// Config, all on one storage, hence one account) are configured for the same directory URL with
+// the same e-mail, in every combination of the accepted spellings; first-attempt issuances are
+// spread over them. The judgement is made AT THE CA: the instants at which newOrder requests of
+// one account reach the one mock server must respect the limit, whoever sent them. Then the same
+// through acmeClient.throttle of clients made by the issuers themselves (real newACMEClient).
+func c17SeveralIssuers(t *testing.T, o *vOut) {
+	type caseT struct {
+		name   string
+		spell  []int // index into c17Spellings, one per issuer
+		n, lim int
+		win    time.Duration
+	}
+	cases := []caseT{
+		{"full+full", []int{0, 0}, 6, 2, 10 * time.Second},
+		{"full+bare", []int{0, 1}, 6, 2, 10 * time.Second},
+		{"bare+full", []int{1, 0}, 5, 1, 3 * time.Second},
+		{"bare+bare", []int{1, 1}, 6, 2, 10 * time.Second},
+		{"full+bare+bare", []int{0, 1, 1}, 9, 3, 5 * time.Second},
+	}
+	for _, c := range cases {
+		c := c
+		synctest.Test(t, func(t *testing.T) {
+			oldN, oldW := RateLimitEvents, RateLimitEventsWindow
+			RateLimitEvents, RateLimitEventsWindow = c.lim, c.win
+			defer func() { RateLimitEvents, RateLimitEventsWindow = oldN, oldW }()
+			defer vStopRateLimiters()
+			ca := vNewCA("c17s")
+			srv := vNewACME("c17s", ca)
+			srv.Validation = vACMEPreValid
+			st := vNewMem()
+			sp := c17Spellings(srv.DirectoryURL())
+			var cfgs []*Config
+			var isss []*ACMEIssuer
+			var spelt []string
+			for _, si := range c.spell {
+				cache, cfg := vNewCfg(st, []Issuer{})
+				defer cache.Stop()
+				iss := srv.Issuer(cfg, ACMEIssuer{CA: sp[si], Email: "several@c17.example", Agreed: true})
+				cfg.Issuers = []Issuer{iss}
+				cfgs, isss, spelt = append(cfgs, cfg), append(isss, iss), append(spelt, sp[si])
+			}
+			// the account is registered once, by the first issuer; then a quiet spell
+			if err := cfgs[0].ObtainCertSync(context.Background(), "warm.c17s.example"); err != nil {
+				t.Errorf("%s: warm-up issuance failed: %v", c.name, err)
+				return
+			}
+			time.Sleep(3 * c.win)
+			before := len(srv.Orders())
+			start := time.Now()
+			var wg sync.WaitGroup
+			for i := 0; i < c.n; i++ {
+				wg.Add(1)
+				go func(i int) {
+					defer wg.Done()
+					if err := cfgs[i%len(cfgs)].ObtainCertSync(context.Background(), fmt.Sprintf("s%d.c17s.example", i)); err != nil {
+						t.Errorf("%s: issuance %d failed: %v", c.name, i, err)
+					}
+				}(i)
+			}
+			wg.Wait()
+			byAcct := map[string][]int64{}
+			total := 0
+			for _, ol := range srv.Orders()[before:] {
+				byAcct[ol.Account] = append(byAcct[ol.Account], int64(ol.At.Sub(start)))
+				total++
+			}
+			o.Stat("several_issuers_orders_checked", total)
+			if total != c.n {
+				o.Mon("C17 issue orders-missing", map[string]any{"case": "several-issuers " + c.name, "want": c.n, "got": total})
+			}
+			accts := make([]string, 0, len(byAcct))
+			for a := range byAcct {
+				accts = append(accts, a)
+			}
+			sort.Strings(accts)
+			for ai, a := range accts {
+				at := byAcct[a]
+				sort.Slice(at, func(i, j int) bool { return at[i] < at[j] })
+				if c17WindowExceeded(at, c.lim, c.win) {
+					o.Mon("C17 issue several-issuers-one-ca-and-account-exceed-limit", map[string]any{"case": c.name, "ca_as_configured": spelt,
+						"account_no": ai, "limit": c.lim, "window_ns": int64(c.win), "order_instants_at_the_ca_ns": at})
+					break
+				}
+			}
+			// ---- the same through throttle alone: clients made by the issuers (real newACMEClient,
+			// so the directory each talks to is the library's reading of its configuration), a burst
+			// spread over them, limiter map emptied first
+			var clients []*acmeClient
+			dirs := map[string]bool{}
+			for _, iss := range isss {
+				cl, err := iss.newACMEClientWithAccount(context.Background(), false, false)
+				if err != nil {
+					t.Errorf("%s: client: %v", c.name, err)
+					return
+				}
+				clients = append(clients, cl)
+				dirs[cl.acmeClient.Directory] = true
+			}
+			if len(dirs) != 1 { // the spellings of the table are one directory to the library
+				o.Mon("C17 issue spellings-of-one-ca-give-different-directories", map[string]any{"case": c.name, "ca_as_configured": spelt, "directories": len(dirs)})
+				return
+			}
+			rounds, burst := 4, 12
+			if vThorough() {
+				rounds = 30
+			}
+			for r := 0; r < rounds; r++ {
+				vStopRateLimiters()
+				t0 := time.Now()
+				gate := make(chan struct{})
+				var mu sync.Mutex
+				var adm []int64
+				var wg2 sync.WaitGroup
+				for i := 0; i < burst; i++ {
+					wg2.Add(1)
+					go func(i int) {
+						defer wg2.Done()
+						<-gate
+						if err := clients[(i+r)%len(clients)].throttle(context.Background(), []string{"burst.c17s.example"}); err != nil {
+							return
+						}
+						mu.Lock()
+						adm = append(adm, int64(time.Since(t0)))
+						mu.Unlock()
+					}(i)
+				}
+				synctest.Wait()
+				close(gate)
+				wg2.Wait()
+				sort.Slice(adm, func(i, j int) bool { return adm[i] < adm[j] })
+				o.Stat("several_issuers_bursts_checked", 1)
+				if len(adm) != burst || c17WindowExceeded(adm, c.lim, c.win) {
+					o.Mon("C17 issue several-issuers-throttle-burst-exceeds-limit", map[string]any{"case": c.name, "ca_as_configured": spelt,
+						"limit": c.lim, "window_ns": int64(c.win), "admission_instants_ns": adm})
+					break
+				}
+			}
+		})
+	}
+}
 
 func TestVerifC17Issue(t *testing.T) {
 	o := vOpen(t, "C17issue")
@@ -177,4 +340,5 @@ func TestVerifC17Issue(t *testing.T) {
 			}
 		})
 	}
+	c17SeveralIssuers(t, o)
 }
